@@ -418,4 +418,34 @@ def viewTaprootSigHash (S : Bytes → Bytes) (inputs : List PsbtInput) (tx : Tx)
   let p ← precompute S tx spent
   taprootSigHash S (inputs.getD n PsbtInput.empty).sigHashType tx i spent leafHash ht (some p)
 
+/-! ### `script.engine.script.find_and_delete` / `calculate_script_code` (what hands `legacy` its script code) -/
+
+/-- the `while True:` of `find_and_delete`, on the offsets `pc2`, `pc` into the script and the joined `kept`:
+    `kept.append(script[pc2:pc])`, the inner `while script[pc : pc + len(target)] == target`, `pc2 = pc`,
+    `read_op_code(script, pc)`, and after the `break` the `kept.append(script[pc2:])` -/
+def fadIdx (s t : Bytes) : Nat → Nat → Nat → Bytes → Nat → Bytes × Nat
+  | 0, pc2, _, kept, found => (kept ++ s.drop pc2, found)
+  | fuel + 1, pc2, pc, kept, found =>
+    let kept := kept ++ (s.drop pc2).take (pc - pc2)
+    let k := matchCount t s.length (s.drop pc)
+    let pc := pc + k * t.length
+    match readOp (s.drop pc) with
+    | none => (kept ++ s.drop pc, found + k)
+    | some (_, n) => fadIdx s t fuel pc (pc + n) kept (found + k)
+
+/-- `find_and_delete(script, target)` -/
+def findAndDeleteImpl (s t : Bytes) : Bytes × Nat :=
+  if t.isEmpty then (s, 0)
+  else
+    let r := fadIdx s t (s.length + 1) 0 0 [] 0
+    if r.2 = 0 then (s, 0) else r
+
+/-- `calculate_script_code(script_bytes, codesep_offset, signatures, const_scriptcode, segwit)`; `.value` is the
+    library's refusal of a signature found under CONST_SCRIPTCODE -/
+def calculateScriptCode (script : Bytes) (offset : Nat) (sigs : List Bytes) (constScriptcode segwit : Bool) : R Bytes :=
+  if segwit then pure (script.drop offset)
+  else sigs.foldlM (fun sc sig =>
+    let r := findAndDeleteImpl sc (pushOf sig)
+    if r.2 ≠ 0 ∧ constScriptcode then throw .value else pure r.1) (script.drop offset)
+
 end Btc.Sighash.Impl
